@@ -95,6 +95,8 @@ func families(tier string) []family {
 		{kind: 's', name: "x", target: "."}, {kind: 'd', name: "a"}, {kind: 's', name: "l", target: "a/b"},
 		{kind: 's', name: "a", target: "x/x/../.."}, {kind: 's', name: "a", target: "x/.."},
 		{kind: 'r', name: "a/f"}, {kind: 'd', name: "a/d"}, {kind: 'r', name: "a"},
+		// the same chain ending at a file: one that can be created outside, one that exists outside
+		{kind: 's', name: "a", target: "x/x/../../zz"}, {kind: 's', name: "a", target: "x/x/../../cwd/victim"},
 	}
 	// link targets that stay inside when read relative to the link's own directory (as they are
 	// validated) but name an existing file outside the working directory when read relative to the
